@@ -191,6 +191,8 @@ fn cone_degrees<T: DSym>(ds: &T) -> Vec<usize> {
 
 
 pub fn orbifold_symbol<T: DSym>(ds: &T) -> String {
+    #[cfg(rust_dsymbols_verif)]
+    crate::verif_hooks::probe("delaney2d::orbifold_symbol");
     assert!(ds.dim() == 2, "must be two-dimensional");
     assert!(ds.is_complete(), "must be complete");
 
